@@ -81,12 +81,21 @@ def scripts_for(content, chunking='all'):
     'w'    whole only;
     'ws-'  as 'ws', except that the over-long-by-n script comes whole and as [content, content] (the first
            copy ends on a chunk boundary) instead of 2n single bytes;
-    'all-' every composition, except for the over-long-by-n script, which is cut as in 'ws-'."""
+    'all-' every composition, except for the over-long-by-n script, which is cut as in 'ws-';
+    'q3'   as 'ws-' without the flips and truncations at inner positions (first and last position only): the
+           quick tier's triples; every position is covered by its pairs and by the thorough tier's triples."""
     out = []
     n = len(content)
+    inner = {f'flip{p}' for p in range(1, n - 1)} | {f'trunc{p}' for p in range(1, n - 1)}
     for kind, data in kinds_for(content):
+        if chunking == 'q3':
+            if kind in inner:
+                continue
         comps = compositions(data)
-        if chunking == 'w':
+        if chunking == 'q3':
+            comps = [comps[0], (data[:n], data[n:])] if kind == 'longn' else \
+                ([comps[0]] if len(comps) == 1 else [comps[0], comps[-1]])
+        elif chunking == 'w':
             comps = [comps[0]]
         elif chunking in ('ws-', 'all-') and kind == 'longn':
             comps = [comps[0], (data[:n], data[n:])]
@@ -99,6 +108,24 @@ def scripts_for(content, chunking='all'):
 
 def is_misbehaving(kind):
     return kind != 'ok'
+
+
+PRELUDES = ('solo', 'race', 'loser')
+
+
+def prelude_script(name, content):
+    """Episode 1 of the two-episode families: (writers, leading events); the rest is the default schedule
+    (loop first, then writers in index order) to quiescence.  Every prelude delivers a complete correct copy."""
+    n = len(content)
+    whole = {'kind': 'ok', 'chunks': (content,)}
+    if name == 'solo':          # one correct writer, default schedule
+        return [whole], []
+    if name == 'race':          # two correct writers, both complete before any callback has run
+        return [whole, dict(whole)], ['W0', 'W1']
+    if name == 'loser':         # an over-long peer wins on a chunk boundary while a truncated one is pending
+        trunc = {'kind': f'trunc{n - 1}', 'chunks': (content[:n - 1],) if n > 1 else ()}
+        return [{'kind': 'long1', 'chunks': (content, b'\x7a')}, trunc], (['W1', 'W0'] if n > 1 else ['W0'])
+    raise ValueError(name)
 
 
 # ================================================================================================
@@ -193,10 +220,25 @@ class Exec:
         self.callbacks = []
         known = case.get('known_length', True)
         cls = BlobFile if self.is_file else BlobBuffer
-        self.blob = cls(self.loop, self.hash, self.n if known else None, self._completed, blob_dir)
+        self.has_callback = bool(case.get('callback', True))
+        self.blob = cls(self.loop, self.hash, self.n if known else None,
+                        self._completed if self.has_callback else None, blob_dir)
         self.known = known
         self.late = bool(case.get('late_open'))
-        ws = case['writers']
+        self.caller_errors = []             # exceptions raised to the caller of write() (outside the oracle)
+        self.nevents = 0
+        self.prelude_bad = None             # violation found in episode 1 / the between-episodes operation
+        self.prelude_trace = []
+        self.prelude_ws = []
+        ep = case.get('episodes')
+        if ep:
+            self._run_prelude(ep)
+        self._begin_episode(case['writers'], known, self.late)
+
+    def _begin_episode(self, ws, known, late):
+        """(Re)initialise the environment and the oracle's memory for one download episode on self.blob."""
+        self.callbacks = []
+        self.verified_at_start = self.blob.get_is_verified()   # carried over legitimately from an earlier episode
         self.k = len(ws)
         self.scripts = [tuple(w['chunks']) for w in ws]
         self.kinds = [w['kind'] for w in ws]
@@ -211,12 +253,66 @@ class Exec:
         self.open_at_first_hit = None       # writers that were open when the first copy was delivered
         self.ws = [None] * self.k
         self.length_conflict = False
-        self.caller_errors = []             # exceptions raised to the caller of write() (outside the oracle)
         self.trace = []
-        self.nevents = 0
-        if not self.late:
+        if not late:
             for i in range(self.k):
                 self._open(i)
+
+    def _run_prelude(self, ep):
+        """Episode 1 (a complete download on a fixed schedule, judged by the same oracle) and the operation
+        between the episodes.  Deterministic: it is re-executed, not explored."""
+        writers, events = prelude_script(ep['prelude'], self.content)
+        if self.blob.get_length() is None:
+            self.blob.set_length(self.n)        # episode 1's header announces the right length
+        self._begin_episode(writers, True, False)
+        bad = self.check()
+        for e in events:
+            if bad is not None:
+                break
+            if e not in self.enabled():
+                raise RuntimeError(f'C01 harness: prelude event {e} not enabled after {self.trace}')
+            self.do(e)
+            bad = self.check()
+        while bad is None:
+            en = self.enabled()
+            if not en:
+                bad = self.check_final()
+                if bad is None and not self.blob.get_is_verified():
+                    raise RuntimeError('C01 harness: prelude is supposed to deliver a complete correct copy')
+                break
+            self.do(en[0])
+            bad = self.check()
+        self.prelude_trace = list(self.trace)
+        self.prelude_ws = [w for w in self.ws if w is not None]
+        if bad is not None:
+            self.prelude_bad = ('episode1:' + bad[0], f'episode 1 ({ep["prelude"]}: {" ".join(self.trace)}): {bad[1]}')
+            return
+        op = ep['between']
+        blob = self.blob
+        if op == 'delete':
+            blob.delete()
+        elif op == 'read-once':
+            with blob.reader_context() as r:
+                data = r.read()
+            if data != self.content:
+                self.prelude_bad = ('episode1:readable-wrong-bytes', f'reader_context returned {data!r} after episode 1')
+                return
+        elif op == 'close':
+            blob.close()
+        elif op == 'unlink+delete':
+            os.remove(self.path)        # the file disappears behind the blob object's back, then the owner cleans up
+            blob.delete()
+        else:
+            raise ValueError(op)
+        if self.known and blob.get_length() is None:
+            blob.set_length(self.n)     # the next download announces the length again (as BlobManager.get_blob does)
+        self.prelude_trace.append('<' + op + '>')
+        while True:                      # let the loop settle (nothing is expected to be pending)
+            en = [e for e in self.enabled() if e == 'STEP' or e[0] == 'J']
+            if not en:
+                break
+            self.do(en[0])
+            self.prelude_trace.append(en[0])
 
     # ---- environment callbacks ------------------------------------------------------------------
     def _completed(self, blob):
@@ -337,7 +433,7 @@ class Exec:
                 return (f'{why}-with-wrong-bytes', 'sha384(stored) != blob hash')
             if verified and blob.get_length() != len(data):
                 return ('verified-length-mismatch', f'verified with length {blob.get_length()} but {len(data)} bytes stored')
-            if not any(self.hit):
+            if not any(self.hit) and not self.verified_at_start:
                 return (f'{why}-without-delivery', f'{why} although no writer delivered a complete correct copy')
         if ncb > 1:
             return ('callback-twice', f'blob_completed_callback fired {ncb} times')
@@ -368,6 +464,10 @@ class Exec:
         present, data = self.stored()
         if not present or data != self.content:
             return ('delivered-not-stored', 'verified at quiescence but stored bytes differ')
+        if self.has_callback and not self.verified_at_start and len(self.callbacks) != 1:
+            # "announced": tightened from a tally to a demand (the tally was 0 in every family of both tiers)
+            return ('delivered-callback-not-fired',
+                    f'blob verified by this download but blob_completed_callback fired {len(self.callbacks)} times in it')
         must = self.open_at_first_hit or []
         for i in must:
             w = self.ws[i]
@@ -409,8 +509,11 @@ class Exec:
             + owner per handle, in order), every task created (done / waiting on what), every executor
             job (state), the stored bytes (file content / buffer);
         (b) the environment still to come: per writer the remaining chunks, its pending O/S events and L;
-        (c) the oracle's memory: hit flags and order, writers open at first hit, callback count, and
+        (c) the oracle's memory: hit flags and order, writers open at first hit, callback count (of this
+            episode), whether the blob has a completed-callback / was verified when the episode began, and
             whether the bytes sent so far are still a proper prefix of the content.
+        An earlier episode on the same blob object (two-episode families) enters only through (a): whatever it
+        left on the blob object, the loop, the tasks and the disk is part of the tuple.
         All three are in the tuple; the case identity is deliberately *not* (two cases that reach the
         same tuple have the same continuations), so states are shared between cases of one batch.
         Not included: object identities, the trace, exceptions already raised to callers (tallied only)."""
@@ -459,7 +562,8 @@ class Exec:
             tasks.append((t.get_coro().__qualname__ if t.get_coro() is not None else '', _fut_state(t),
                           None if fw is None else (futmap.get(id(fw), '?'), fw.done())))
         jobs = tuple((j.n, j.state, j.fut.cancelled()) for j in loop.jobs)
-        return (self.case['cls'], self.hash[:8], self.known, tuple(wst), tuple(battrs), tuple(ready), tuple(tasks),
+        return (self.case['cls'], self.hash[:8], self.known, self.has_callback, self.verified_at_start, loop._job_counter,
+                tuple(wst), tuple(battrs), tuple(ready), tuple(tasks),
                 jobs, self.stored(), len(self.callbacks), tuple(self.hit_order),
                 None if self.open_at_first_hit is None else tuple(self.open_at_first_hit))
 
@@ -467,7 +571,7 @@ class Exec:
     def close(self):
         try:
             self.blob.close()
-            for w in self.ws:
+            for w in list(self.ws) + self.prelude_ws:
                 if w is not None:
                     w.close_handle()
             for t in self.loop.tasks_created:
@@ -498,6 +602,8 @@ def _kclass(kind):
 
 
 def family_of(case):
+    if case.get('episodes'):
+        return 'episode2-after-' + case['episodes']['between']
     if case.get('late_open'):
         return 'late-open'
     return 'known-length' if case.get('known_length', True) else 'unknown-length'
@@ -508,32 +614,37 @@ def signature(case, bad_kind, culprit=None):
     sig = {'kind': bad_kind, 'cls': case['cls'], 'family': family_of(case)}
     if culprit is not None:
         sig['culprit'] = _kclass(case['writers'][culprit]['kind'])
+    if not case.get('callback', True):
+        sig['callback'] = False
     return sig
 
 
 def case_json(case):
     return {'cls': case['cls'], 'content': case['content'].hex(), 'known_length': case.get('known_length', True),
-            'late_open': bool(case.get('late_open')),
+            'late_open': bool(case.get('late_open')), 'callback': bool(case.get('callback', True)),
+            'episodes': case.get('episodes'),
             'writers': [{'kind': w['kind'], 'chunks': [c.hex() for c in w['chunks']], 'L': w.get('L')} for w in case['writers']]}
 
 
 def case_from_json(d):
     return {'cls': d['cls'], 'content': bytes.fromhex(d['content']), 'known_length': d.get('known_length', True),
-            'late_open': bool(d.get('late_open')),
+            'late_open': bool(d.get('late_open')), 'callback': bool(d.get('callback', True)), 'episodes': d.get('episodes'),
             'writers': [{'kind': w['kind'], 'chunks': tuple(bytes.fromhex(c) for c in w['chunks']), 'L': w.get('L')}
                         for w in d['writers']]}
 
 
 def case_key(case):
     """Identity of a case up to the order of its writers (multiset of scripts)."""
+    ep = case.get('episodes') or {}
     return (case['cls'], case['content'], case.get('known_length', True), bool(case.get('late_open')),
+            bool(case.get('callback', True)), ep.get('prelude'), ep.get('between'),
             tuple(sorted((w['kind'], w['chunks'], w.get('L') or 0) for w in case['writers'])))
 
 
 def is_nontrivial(case):
     """>= 2 writers (every interleaving of them is explored, so they overlap) or a misbehaving writer."""
     return len(case['writers']) >= 2 or any(is_misbehaving(w['kind']) for w in case['writers']) \
-        or not case.get('known_length', True)
+        or not case.get('known_length', True) or bool(case.get('episodes'))
 
 
 def _culprit_of(text):
@@ -590,11 +701,23 @@ def explore(case, blob_dir, res, visited, use_hash=True, collect=None, record_st
         prefix = stack.pop()
         ex = Exec(case, blob_dir)
         try:
+            if ex.prelude_bad is not None:
+                # episode 1 or the between-episodes operation already broke the invariant (deterministic prelude)
+                res.violation(signature(case, ex.prelude_bad[0]), f'{ex.prelude_bad[1]} [{describe(case)}]',
+                              {'case': case_json(case), 'events': [], 'expect': ex.prelude_bad[0]})
+                res.count('violating_states')
+                break
             for e in prefix:
                 ex.do(e)
             if prefix:
                 res.count('replayed_events', len(prefix) - 1)
                 res.count('transitions')
+            elif ex.prelude_trace:
+                res.count('prelude_events', len(ex.prelude_trace))
+                if not ex.verified_at_start:
+                    res.witness('episode2_starts_unverified_after_a_completed_download')
+                if ex.verified_at_start:
+                    res.witness('episode2_starts_on_a_still_verified_blob')
             path = list(prefix)
             while True:
                 bad = ex.check()
@@ -642,8 +765,8 @@ def explore(case, blob_dir, res, visited, use_hash=True, collect=None, record_st
                         # an exception that escaped a loop callback is logged by asyncio, nothing more; its
                         # consequences (if any) are what the oracle judges
                         res.tally('outside_oracle:loop_exception_handler:' + type(ctx_.get('exception')).__name__)
-                    if any(ex.hit) and len(ex.callbacks) != 1:
-                        res.tally('interpretation_only:verified_but_completion_callback_not_fired_once')
+                    if ex.prelude_trace and any(ex.hit) and not ex.verified_at_start:
+                        res.witness('blob_verified_again_in_episode2')
                     if any(ex.hit) and any(w is not None and not w.finished.done() for w in ex.ws):
                         res.tally('interpretation_only:writer_opened_after_delivery_left_pending')
                     o = ex.outcome()
@@ -670,17 +793,23 @@ def explore(case, blob_dir, res, visited, use_hash=True, collect=None, record_st
 def describe(case):
     ws = ', '.join(f"{w['kind']}:{'|'.join(c.hex() for c in w['chunks'])}" + (f"@L={w['L']}" if w.get('L') is not None else '')
                    for w in case['writers'])
-    return f"{case['cls']} n={len(case['content'])} {family_of(case)} writers=[{ws}]"
+    ep = case.get('episodes')
+    extra = (f" (episode 1: {ep['prelude']})" if ep else '') + ('' if case.get('callback', True) else ' no-callback')
+    return f"{case['cls']} n={len(case['content'])} {family_of(case)}{extra} writers=[{ws}]"
 
 
-def run_trace(case, events, blob_dir):
-    """Re-execute one recorded event sequence without the explorer.  Returns (violation or None, log)."""
+def run_trace(case, events, blob_dir, complete=False):
+    """Re-execute one recorded event sequence without the explorer.  Returns (violation or None, log).
+    complete: when the recorded events do not end in a quiescent state (on another tree), continue on the
+    default schedule to quiescence so that the liveness clause is judged too."""
     digest = sdigest
     ex = Exec(case, blob_dir)
     log = []
     bad = None
     try:
-        bad = ex.check()
+        if ex.prelude_trace or ex.prelude_bad:
+            log.append(('episode 1 + between-op', ' '.join(ex.prelude_trace), ex.prelude_bad[0] if ex.prelude_bad else 'ok'))
+        bad = ex.prelude_bad or ex.check()
         log.append(('init', digest(ex.canon()).hex() if bad is None else bad[0]))
         for e in events:
             if bad is not None:
@@ -692,6 +821,12 @@ def run_trace(case, events, blob_dir):
             log.append((e, digest(ex.canon()).hex() if bad is None else bad[0],
                         f'verified={ex.blob.get_is_verified()} stored={ex.stored()} callbacks={len(ex.callbacks)} '
                         f'futures={[None if w is None else _fut_state(w.finished) for w in ex.ws]}'))
+        while complete and bad is None and ex.enabled():
+            e = ex.enabled()[0]
+            ex.do(e)
+            bad = ex.check()
+            log.append((e + ' (default schedule)', digest(ex.canon()).hex() if bad is None else bad[0],
+                        f'verified={ex.blob.get_is_verified()} stored={ex.stored()} callbacks={len(ex.callbacks)}'))
         if bad is None and not ex.enabled():
             bad = ex.check_final() or ex.readable_final()
             log.append(('quiescent', bad[0] if bad else 'ok'))
@@ -704,11 +839,13 @@ def run_trace(case, events, blob_dir):
 # families of cases (the bounded spaces), batches, workers
 # ================================================================================================
 
-def fam(name, cls, n, k, chunking, mode='known', order='multiset', batch=100, maxchunks=None, big=False):
+def fam(name, cls, n, k, chunking, mode='known', order='multiset', batch=100, maxchunks=None, big=False,
+        callback=True, prelude=None, between=None):
     """big: the family's distinct-state digests are not shipped to the parent (tens of millions); its states
     are counted per batch instead (sum over batches of the distinct states visited inside the batch)."""
     return {'name': name, 'cls': cls, 'n': n, 'k': k, 'chunking': chunking, 'mode': mode, 'order': order, 'batch': batch,
-            'maxchunks': maxchunks, 'big': big}
+            'maxchunks': maxchunks, 'big': big, 'callback': callback,
+            'episodes': {'prelude': prelude, 'between': between} if prelude else None}
 
 
 def alphabet_of(f):
@@ -735,7 +872,8 @@ def cases_of(f, lo=0, hi=None):
         if mc is not None and sum(len(alpha[i]['chunks']) for i in combo) > mc:
             continue        # outside this (cross-check) sub-space by definition: too many chunks in total
         yield {'cls': f['cls'], 'content': content, 'known_length': f['mode'] != 'unknown',
-               'late_open': f['mode'] == 'late', 'writers': [alpha[i] for i in combo]}
+               'late_open': f['mode'] == 'late', 'callback': f.get('callback', True), 'episodes': f.get('episodes'),
+               'writers': [alpha[i] for i in combo]}
 
 
 def count_cases(f):
@@ -744,9 +882,39 @@ def count_cases(f):
     return a ** f['k'] if f['order'] == 'ordered' else math.comb(a + f['k'] - 1, f['k'])
 
 
+BETWEEN_OPS = {'file': ('delete', 'close', 'unlink+delete'), 'buffer': ('delete', 'read-once', 'close')}
+
+
+def episode_families(tier, cls):
+    """Two-episode families: episode 1 (prelude) downloads the blob to completion on the same blob object, a
+    between-episodes operation follows, episode 2 is explored exhaustively.  With and without a completed-callback."""
+    F = []
+    q = tier == 'quick'
+    for cb in (True, False):
+        if not cb:      # single-episode families all run with a callback; this one covers the branch without
+            F.append(fam('pairs-n3-w[nocb]', cls, 3, 2, 'w', batch=100, callback=False))
+        for pre in PRELUDES:
+            for op in BETWEEN_OPS[cls]:
+                tag = f"[{pre}/{op}/{'cb' if cb else 'nocb'}]"
+                kw = dict(callback=cb, prelude=pre, between=op)
+                F.append(fam('ep2-single-n3' + tag, cls, 3, 1, 'ws' if q else 'all', batch=400, **kw))
+                F.append(fam('ep2-pairs-n3' + tag, cls, 3, 2, 'w' if q else 'ws-', batch=90, **kw))
+                F.append(fam('ep2-pairs-n1' + tag, cls, 1, 2, 'all', batch=100, **kw))
+                if not q and op in ('delete', 'unlink+delete'):
+                    # the length is forgotten by delete(): episode 2 announces it again per writer, rightly or wrongly
+                    F.append(fam('ep2-unknown-pairs-n3' + tag, cls, 3, 2, 'w', mode='unknown', batch=250, **kw))
+    return F
+
+
+def group_of(f):
+    return f['name'].split('[')[0]
+
+
 def families(tier):
     F = []
     both = ('buffer', 'file')
+    for cls in both:
+        F += episode_families(tier, cls)
     if tier == 'quick':
         for cls in both:
             for n in (1, 3, 4):
@@ -754,7 +922,7 @@ def families(tier):
             F.append(fam('pairs-n1', cls, 1, 2, 'all', order='ordered', batch=100))
             F.append(fam('triples-n1', cls, 1, 3, 'all', batch=40))
             F.append(fam('pairs-n3-all', cls, 3, 2, 'all', batch=130))
-            F.append(fam('triples-n3-ws-', cls, 3, 3, 'ws-', batch=30))
+            F.append(fam('triples-n3-q3', cls, 3, 3, 'q3', batch=25))
             F.append(fam('unknown-single-n3', cls, 3, 1, 'all', mode='unknown', batch=400))
             F.append(fam('unknown-pairs-n1', cls, 1, 2, 'all', mode='unknown', batch=150))
             F.append(fam('unknown-pairs-n3-ws', cls, 3, 2, 'ws', mode='unknown', batch=100))
@@ -787,8 +955,12 @@ def xcheck_families(tier):
         # maxchunks bounds the total number of chunks of a case: the stateless enumeration grows like the
         # multinomial coefficient of the chunk counts (two 6-chunk writers alone are 142 800 executions)
         F.append(fam('x-pairs-n3-ws', cls, 3, 2, 'ws', batch=20, maxchunks=5 if q else 7))
-        F.append(fam('x-triples-n1', cls, 1, 3, 'all', batch=20 if q else 6, maxchunks=4 if q else 5))
+        F.append(fam('x-triples-n1', cls, 1, 3, 'all', batch=20 if q else 6, maxchunks=3 if q else 5))
         F.append(fam('x-unknown-pairs-n1', cls, 1, 2, 'all', mode='unknown', batch=60, maxchunks=3 if q else 4))
+        F.append(fam('x-ep2-pairs-n1[race/delete/cb]', cls, 1, 2, 'all', batch=40, maxchunks=3 if q else 4,
+                     prelude='race', between='delete'))
+        F.append(fam('x-ep2-pairs-n1[loser/close/nocb]', cls, 1, 2, 'all', batch=40, maxchunks=3 if q else 4,
+                     callback=False, prelude='loser', between='close'))
         if not q:
             F.append(fam('x-late-pairs-n3-ws', cls, 3, 2, 'ws', mode='late', batch=20, maxchunks=4))
             F.append(fam('x-pairs-n3-all', cls, 3, 2, 'all', batch=100, maxchunks=5))
@@ -826,7 +998,7 @@ def work_batch(item, res):
         seen_viol = set(res.violations)
         for case in cases_of(f, lo, hi):
             res.count('evaluations')
-            res.count(f"cases:{f['name']}:{f['cls']}")
+            res.count(f"cases:{group_of(f)}:{f['cls']}")
             if is_nontrivial(case):
                 res.distinct_add('nontrivial', case_key(case))
             had_last = col['last']
@@ -851,7 +1023,7 @@ def work_batch(item, res):
                 _selfcheck_trace(case_from_json(v['replay']['case']), v['replay']['events'], v['replay']['expect'], d, res)
     finally:
         shutil.rmtree(d, ignore_errors=True)
-        res.count(f"cpu_ms:{f['name']}", int((time.process_time() - t0) * 1000))
+        res.count(f"cpu_ms:{group_of(f)}", int((time.process_time() - t0) * 1000))
 
 
 def work_xcheck(item, res):
@@ -1093,6 +1265,8 @@ def work_single(idx, res):
 # ================================================================================================
 
 EXPECTED_WITNESSES = [
+    'episode2_starts_unverified_after_a_completed_download', 'episode2_starts_on_a_still_verified_blob',
+    'blob_verified_again_in_episode2',
     'two_writers_completed_before_any_callback_ran', 'pending_writer_cancelled_by_winner',
     'overlong_peer_on_chunk_boundary_wins', 'straddling_chunk_of_correct_prefix_refused',
     'hash_mismatch_refused', 'overlength_write_refused', 'file_on_disk_before_verified_event',
@@ -1129,11 +1303,16 @@ def run(ctx):
         res.counters['states'] = exact + res.counters['states_big_families_batch_sum']
     spaces = {}
     for f in fams:
-        spaces[f"{f['name']}/{f['cls']}"] = count_cases(f)
+        key = f"{group_of(f)}/{f['cls']}"
+        spaces[key] = spaces.get(key, 0) + count_cases(f)
     ctx.meta.update(
         rule=('case = blob class (BlobFile | BlobBuffer) x content length n x family (known length | unknown length with '
               'one set_length(L_i), L_i in {n,n-1,n+1}, per writer before its first write | late open: get_blob_writer is '
-              'an event too) x tuple of 1..3 writer scripts; script = kind (correct, each byte flipped by one bit, every '
+              'an event too | two episodes: a first download to completion on the SAME blob object (preludes solo / race = '
+              'two complete before any callback / loser = over-long winner + pending truncated peer), then one of '
+              'delete(), BlobBuffer one-shot read, close(), file unlinked + delete(), then episode 2 explored '
+              'exhaustively with the oracle applied to episode 2; blobs with and without a completed-callback) x tuple of '
+              '1..3 writer scripts; script = kind (correct, each byte flipped by one bit, every '
               'truncation incl. the empty one, over-long by 1, over-long by n, unrelated) x chunking (per family, see '
               'bounds.chunking_legend). For every case ALL interleavings of O(i)/S(i)/W(i)/STEP/JOB_RUN/JOB_DONE events '
               'are explored (DFS over event prefixes, every node re-executed on fresh real objects, canonical-state '
@@ -1149,10 +1328,12 @@ def run(ctx):
         bounds={'tier': tier, 'families': spaces, 'cases': total_cases, 'max_writers': 3,
                 'ordered_families': sorted({f['name'] for f in fams if f['order'] == 'ordered'}),
                 'chunking_legend': {'all': 'every composition of every script', 'ws': 'whole and all-single-bytes',
-                                    'w': 'whole only', 'ws-': 'ws, but over-long-by-n as whole and [content|content]',
+                                    'w': 'whole only', 'q3': 'ws- without flips/truncations at inner positions', 'ws-': 'ws, but over-long-by-n as whole and [content|content]',
                                     'all-': 'every composition, but over-long-by-n as whole and [content|content]',
                                     'single-*/pairs-n1/triples-n1': 'all'},
                 'content_lengths': [1, 3, 4], 'boundary_singles': len(SINGLES),
+                'episode_families': {'preludes': list(PRELUDES), 'between_ops': {k: list(v) for k, v in BETWEEN_OPS.items()},
+                                     'callback': [True, False]},
                 'stateless_crosscheck_families': sorted({f['name'] for f in xf})},
         bound_completed='all families listed in bounds fully enumerated, every interleaving',
         assumptions=[
@@ -1166,8 +1347,11 @@ def run(ctx):
             'SHA-384 collisions are outside the enumeration',
             '"delivered a complete correct copy" = cumulative bytes equal the content exactly at a chunk boundary while '
             'the announced length is n; exceptions raised to a misbehaving writer\'s own caller are outside the oracle (tallied)',
-            'writers opened after the first complete copy was delivered are not "pending" writers of the statement; '
-            'the completion callback firing exactly once is not demanded by the liveness clause (both tallied)',
+            'writers opened after the first complete copy was delivered are not "pending" writers of the statement (tallied)',
+            'a blob that has a completed-callback and was not verified when the download began must have fired it exactly '
+            'once when a complete correct copy was delivered ("announced"; tightened from a tally that was 0 everywhere)',
+            'two-episode families: episode 1 runs on a fixed schedule (it is judged, not explored); after delete() the '
+            'harness announces the length again (known-length families) as BlobManager.get_blob does',
         ],
         expected_witnesses=EXPECTED_WITNESSES,
     )
@@ -1184,7 +1368,7 @@ def replay(data):
         else:
             case = case_from_json(data['case'])
             try:
-                bad, log = run_trace(case, list(data['events']), d)
+                bad, log = run_trace(case, list(data['events']), d, complete=True)
             except HarnessDivergence as x:
                 # the recorded schedule is not a schedule of this tree (e.g. the second executor job of a
                 # double-write counterexample does not exist once the defect is gone): nothing reproduced
